@@ -138,3 +138,68 @@ Section Text.
     split; congruence.
   Qed.
 End Text.
+
+(* =========================================================================
+   the object against the reference text file
+   ========================================================================= *)
+Definition SI (f : rfile) (s : sstring) : Prop :=
+  Forall uvalid (rf_data f) /\ 1 <= ss_chunk s /\ ss_tell s = rf_pos f /\
+  RI (rf_data f) (rf_pos f) (ss_buf s).
+
+Lemma RI_at_end C e : RI C (length C) e ->
+  pending (ef_rd e) = [] /\ rd_bytes (ef_rd e) = [] /\ rf_pos (ef_stream e) = length (rf_data (ef_stream e)).
+Proof.
+  intros [Ok [K [D [W [LO [R [Sk E]]]]]]].
+  rewrite skipn_all in Sk. symmetry in Sk. apply app_eq_nil in Sk as [Pn ->].
+  cbn in E. symmetry in E. apply app_eq_nil in E as [Bn Rn].
+  repeat split; auto. now apply rest_nil_iff.
+Qed.
+
+(* writing at the end of the stream, with nothing buffered in the reader *)
+Lemma write_RI C d e :
+  rf_data (ef_stream e) = utf8_enc C -> rf_pos (ef_stream e) = length (utf8_enc C) ->
+  pending (ef_rd e) = [] -> rd_bytes (ef_rd e) = [] -> rd_ok (ef_rd e) = true -> lines_ok (ef_rd e) ->
+  RI (C ++ d) (length C + length d) (ef_write e (utf8_enc d)).
+Proof.
+  intros D Pe Pn Bn Ok LO.
+  unfold RI, ef_write, f_write, call. cbn [ef_rd ef_stream ref_step fst rf_data rf_pos].
+  rewrite D, Pe, overwrite_end. unfold wf, rest. cbn [rf_data rf_pos].
+  rewrite enc_app, !app_length, Pn, Bn.
+  split; [exact Ok|]. split; [lia|]. split; [reflexivity|]. split; [lia|]. split; [exact LO|].
+  exists []. rewrite <- !app_length, !skipn_all. auto.
+Qed.
+
+(* write(d) at the end of the data *)
+Lemma ss_write_spec f s d : SI f s -> rf_pos f = length (rf_data f) -> Forall uvalid d ->
+  SI (mkRF (rf_data f ++ d) (rf_pos f + length d)) (ss_write s d) /\ same_cfg s (ss_write s d).
+Proof.
+  intros [V [Ch [T I]]] Hend Vd. rewrite Hend in I.
+  destruct (RI_at_end _ _ I) as [Pn [Bn Pe]].
+  destruct I as [Ok [K [D [W [LO X]]]]].
+  unfold ss_write.
+  (* whether or not it rolls over, the stream and the (empty) reader buffers are the same *)
+  assert (A : forall s1, (s1 = s \/ s1 = ss_rollover s) ->
+            rf_data (ef_stream (ss_buf s1)) = utf8_enc (rf_data f) /\
+            rf_pos (ef_stream (ss_buf s1)) = length (utf8_enc (rf_data f)) /\
+            pending (ef_rd (ss_buf s1)) = [] /\ rd_bytes (ef_rd (ss_buf s1)) = [] /\
+            rd_ok (ef_rd (ss_buf s1)) = true /\ lines_ok (ef_rd (ss_buf s1)) /\ same_cfg s s1).
+  { assert (A0 : rf_pos (ef_stream (ss_buf s)) = length (utf8_enc (rf_data f))) by (now rewrite <- D).
+    intros s1 [->| ->].
+    - repeat split; auto.
+    - unfold ss_rollover. destruct (ss_rolled s); [repeat split; auto|].
+      cbn [ss_buf ef_seek ef_write ef_stream ef_rd ef_tell].
+      rewrite f_write_empty. unfold f_tell.
+      change (f_seek (f_seek ?x ?o 0) ?o 0) with (f_seek0 (f_seek0 x (rf_pos (ef_stream (ss_buf s)))) (rf_pos (ef_stream (ss_buf s)))).
+      rewrite !f_seek0_eq. cbn [rf_data rf_pos rd_reset rd_bytes rd_ok].
+      unfold pending, lines_ok, same_cfg. cbn. repeat split; auto. }
+  assert (B : forall s1, (s1 = s \/ s1 = ss_rollover s) ->
+     SI (mkRF (rf_data f ++ d) (rf_pos f + length d))
+        (ss_with s1 (ef_write (ss_buf s1) (utf8_enc d)) (ss_tell s + length d)) /\
+     same_cfg s (ss_with s1 (ef_write (ss_buf s1) (utf8_enc d)) (ss_tell s + length d))).
+  { intros s1 H1. destruct (A s1 H1) as [A1 [A2 [A3 [A4 [A5 [A6 [A7 A8]]]]]]].
+    split; [|split; cbn; assumption].
+    unfold SI. cbn [rf_data rf_pos ss_with ss_chunk ss_tell ss_buf].
+    split; [apply Forall_app; auto|]. split; [lia|]. split; [lia|].
+    rewrite Hend. now apply write_RI. }
+  destruct (ss_max s <=? ef_tell (ss_buf s) + length (utf8_enc d)); apply B; auto.
+Qed.
